@@ -148,6 +148,7 @@ fn generators_receive(expect: &Value, key: u64) -> Option<Value> {
     // the first working generator once more, with one more pair: every -G is a generator run of its own
     let mut again: Vec<(String, String)> = pairs.clone();
     again.push(("again".to_owned(), "1".to_owned()));
+    again.push(("again".to_owned(), "1".to_owned())); // the same pair twice in a row: both reach the generator
     // ... and, for two cases in three, several hundred short pairs (many arguments rather than a long one)
     for i in 0..((key >> 13) % 3) as usize * 400 {
         again.push((format!("k{i}"), format!("{i}")));
